@@ -55,12 +55,26 @@ def render4(items, release=False, fmt=False):
                 reqs.append({"templates": tpls, "ctx": ctx, "undefined": m})
             else:
                 reqs.append({"templates": tpls, "main": "main", "ctx": ctx, "undefined": m, "ops": ["render"]})
+    def run_chunk(chunk):
+        if fmt:
+            return run_json([bin_path("c12", False), "fmt"], chunk)
+        return run_prog(chunk, release=release)
     if not reqs:
         res = []
-    elif fmt:
-        res = run_json([bin_path("c12", False), "fmt"], reqs)
+    elif len(reqs) < 1600:
+        res = run_chunk(reqs)
     else:
-        res = run_prog(reqs, release=release)
+        # several harness processes side by side (whole templates per chunk: 4 requests each)
+        import concurrent.futures
+        nchunks = min(8, len(items) // 100 + 1)
+        per = 4 * ((len(items) + nchunks - 1) // nchunks)
+        chunks = [reqs[i:i + per] for i in range(0, len(reqs), per)]
+        with concurrent.futures.ThreadPoolExecutor(max_workers=len(chunks)) as ex:
+            parts = list(ex.map(run_chunk, chunks))
+        res = []
+        for c, part in zip(chunks, parts):
+            part = list(part)[:len(c)]
+            res.extend(part + [{"crash": "no answer"}] * (len(c) - len(part)))
     out = []
     for i in range(len(items)):
         out.append(tuple(canon(res[4 * i + j]) if 4 * i + j < len(res) else ("crash", "no answer") for j in range(4)))
@@ -937,6 +951,11 @@ def main():
                         chk.known_finding(k["id"], k["what"])
                     if dev and not k:
                         chk.violation("matrix: " + "; ".join(dev), {"template": rp["template"], "context": ctx, "probe": rp["probe"], "outcomes": row_show(row)})
+                if "like" in rp:
+                    ref = render4([(rp["like"], ctx)], release=rel, fmt=fmt)[0]
+                    if row != ref:
+                        chk.violation("source of undefined does not behave like a missing variable",
+                                      {"template": rp["template"], "like": rp["like"], "context": ctx, "site": rp.get("site"), "outcomes": row_show(row), "outcomes_of_missing_variable": row_show(ref)})
                 if str(rp.get("site", "")).startswith("builtin:"):
                     _, bk, bn, bp = rp["site"].split(":", 3)
                     badm = builtin_must_fail(bk, bn, bp, row)
@@ -1049,6 +1068,36 @@ def main():
     kern_matrix_ok = kern_m is not None and kern_m == model_m
     chk.cov["matrix_core"] = {"cells": 4 * len(CORE), "engine_interpreter_documentation_agree": 4 * len(CORE) - len(core_bad), "kernel_agrees_with_extraction": kern_matrix_ok}
 
+    # sources of undefined: every engine-produced undefined behaves like a missing variable at every site
+    sp = source_probes()
+    like_map = {key_of(u): u for _, _, u in sp}
+    like_keys = sorted(like_map)
+    n_src_viol = 0
+    for rel in ((False, True) if chk.thorough else (False,)):
+        rows = render4([(t, CTX) for _, t, _ in sp], release=rel)
+        like_rows = dict(zip(like_keys, render4([(like_map[k], CTX) for k in like_keys], release=rel)))
+        evaluations += 4 * (len(sp) + len(like_keys))
+        for (site, t, u), row in zip(sp, rows):
+            ref = like_rows[key_of(u)]
+            if not rel:
+                hist["probe_source_of_undefined"] += 1
+                if len(set(o[0] for o in row)) > 1:
+                    nontriv.add(key_of(t))
+            if any(o[0] == "skip" for o in row + ref):
+                hist["probe_source_syntax_error"] += 1
+                continue
+            if row != ref and n_src_viol < 8:
+                row2, ref2 = render4([(t, CTX)], release=rel)[0], render4([(u, CTX)], release=rel)[0]
+                if row2 == ref2:
+                    hist["unreproducible"] += 1
+                    continue
+                n_src_viol += 1
+                diff = [m for m, a, b in zip(MODES, row2, ref2) if a != b]
+                chk.violation("source of undefined %s at site %s does not behave like a missing variable under %s" % (site.split(":")[1], site.split(":")[2], ", ".join(diff)),
+                              {"template": t, "like": u, "context": CTX, "profile": "release" if rel else "debug", "site": site,
+                               "outcomes": row_show(row2), "outcomes_of_missing_variable": row_show(ref2)})
+    chk.cov["sources_of_undefined"] = {"sources": len(UNDEF_SOURCES), "sites": len(SOURCE_SITES), "cells": len(sp)}
+    tick("sources of undefined")
     tick("matrix core + kernel")
     # ------------------------------------------------------------------------------------------
     # (ii) sweep of the built-ins
